@@ -39,7 +39,9 @@ for p in props:
             "text": m.get("text", "bounded symbolic model checking of the implementation (every feasible path of the real code within the stated bounds executed symbolically, branch feasibility decided by z3, counterexamples replayed on plain CPython). " + claims.get(pid, "")),
             "design_ref": m.get("design_ref", f"DESIGN.md §5 {pid}"),
         },
-        "level_note": (m.get("note") or default_note) + (" OUTSIDE THE CLAIM: " + "; ".join(outside) if outside else ""),
+        "level_note": (m.get("note") or default_note) + (" OUTSIDE THE CLAIM: " + "; ".join(outside) if outside else "")
+                      + (" THOROUGH TIER: validated end-to-end on the unchanged tree (tools/thorough_validated.json)." if pid in VALIDATED else
+                         " THOROUGH TIER: its larger bounds were not validated end-to-end within the build window, so './check " + pid + " --tier thorough' explores the quick bounds (VERIF_FORCE_THOROUGH=1 selects the larger ones)."),
         "technique": m.get("technique", "symbolic execution of the real Python code (CrossHair 0.0.110 + z3), exhaustive over paths within stated bounds; harness shapes: " + ",".join(shapes)),
     })
 manifest = {
